@@ -53,7 +53,7 @@ CLAIMED["C01"] = ("TLC checks structure (directory shape, references inside, no 
 CLAIMED["C11"] = ("TLC checks SoftNeverHard/SoftErrorsExact on the SoftErrors model for every fault plan; real dumps are taken under all 32 fail-point subsets, "
             "per-thread name failures, vanished/sandbox threads, an unreferenced principal mapping, a non-UTF-8 thread name and linker data without DT_DEBUG; "
             "TLC compares the decoded soft-error stream (bag and order) with the model's sequence for the plan and requires every other stream present.",
-            "Trusted: TLC, mdparse, the flattening of the soft-error JSON to paths, failspot's testing client; release-file and cpuinfo copy failures only on the model.",
+            "Trusted: TLC, mdparse, the flattening of the soft-error JSON to paths, failspot's testing client; release-file copy failures only on the model (cpuinfo and auxv failures are induced for real in C18's CpuInfo / AuxvFile parts).",
             "TLA+ model checking (TLC) + fault enumeration (fail points, natural failures) + trace validation", "DESIGN.md 4/C11")
 CLAIMED["C19"] = ("TLC checks NoCarryOver (C19) and structure on DumpSeq with two dumps per writer; real histories of 2..5 dumps on one MinidumpWriter "
             "(options changed, blamed thread changed, principal withdrawn, app regions moved) are decoded and each image is judged by TLC as a fresh writer's dump.",
@@ -100,16 +100,17 @@ CLAIMED["C17"] = ("TLC checks C17 on a model of the three read strategies for ev
             "Trusted: TLC, the address-derived pattern as oracle (cross-checked once through /proc/<pid>/mem), the byte comparator; unreadable = unmapped.",
             "TLA+ model checking (TLC) + model-generated replay + trace validation", "DESIGN.md 4/C17")
 
-CLAIMED["C14"] = ("TLC enumerates every abstract ELF (presence/readability of each table and range the reader follows) through the strategy steps of ElfReader; "
+CLAIMED["C14"] = ("TLC enumerates every abstract ELF (presence/readability of each table and range the reader follows, terminated / unterminated dynamic array, identity / shifted "
+            "virtual addresses) through the strategy steps of ElfReader, with SonameIsTheImages as a design-level invariant; "
             "the ELF builder concretises each (64/32-bit) and the real BuildId/SoName readers (slice and file) must give the model's outcome and the "
             "independent reader's value; totality is checked on every header field at boundary values, field pairs/triples, random bytes, the machine's "
-            "ELF files and live mappings (memory vs file).",
+            "ELF files and live mappings (memory vs file, incl. an image linked and mapped at a fixed address); every reader call runs under a 3 s deadline.",
             "Trusted: TLC, the harness's ELF builder and independent reader; random-bytes part is fuzzing judged trivially by TLC; little-endian only.",
             "TLA+ model checking (TLC) + model-generated replay + structure-aware corruption + trace validation", "DESIGN.md 4/C14")
 
-CLAIMED["C02"] = ("TLC checks totality, no-open-under-/dev and termination of the link_map walk on a step model of a dump over nine input dimensions (all inputs within "
+CLAIMED["C02"] = ("TLC checks totality, no-open-under-/dev and termination of the three loops over target-controlled data (guard walk, link_map walk, SONAME scan) on a step model of a dump over ten input dimensions (all inputs within "
             "two deviations of a benign base); each abstract input is concretised (crash registers, direct auxv, a synthetic linker chain in the target's memory "
-            "incl. cyclic/dangling lists, mapped files with hostile names and contents under inotify) and dumped in a watchdogged worker; the public parsing "
+            "incl. cyclic/dangling lists, mapped files with hostile names and contents under inotify, absurd application-region and AT_PHNUM sizes) and dumped in a watchdogged worker; the public parsing "
             "entry points run on generated inputs; TLC judges every outcome and checks the linker-data soft failure the model predicts.",
             "Trusted: TLC, the watchdog/worker isolation, inotify, the concretisation of classes by the scenario builder; dev profile (overflow = panic).",
             "TLA+ model checking (TLC, safety + liveness) + model-generated scenarios + trace validation", "DESIGN.md 4/C02")
@@ -117,8 +118,11 @@ CLAIMED["C02"] = ("TLC checks totality, no-open-under-/dev and termination of th
 CLAIMED["C18"] = ("TLC checks auxv precedence, one-entry-per-line with the protection table, and the handle bijection on ProcStreams; dumps of targets with generated argv / "
             "environment / descriptors / mappings / synthetic linker chains are decoded and TLC compares the memory-info list (via the model's table), handle "
             "descriptors, system information and the linker list with what the harness reads from /proc; the five raw copies are byte-compared by the harness and "
-            "only judged by TLC (translation-validation-like).",
-            "Trusted: TLC, mdparse, /proc of the blocked target as read by the harness, /proc/cpuinfo + uname for system information; status/cpuinfo raw streams are not compared (volatile).",
+            "only judged by TLC (translation-validation-like). The cpuinfo scan (CpuInfo) and the completion of the auxiliary values from /proc/<pid>/auxv (AuxvFile) are "
+            "transcribed loop by loop, model-checked against their declarative reading, and bound to the writer by dumps whose worker sees generated contents of those files "
+            "(private mount namespace): decoded system information / which value was used must be what the model says.",
+            "Trusted: TLC, mdparse, /proc of the blocked target as read by the harness, /proc/cpuinfo + uname for system information; status/cpuinfo raw streams are not compared (volatile); "
+            "the file substitution needs CAP_SYS_ADMIN (otherwise those two parts are model-checked only, recorded in the evidence).",
             "TLA+ model checking (TLC) + scenario-generated dumps + trace validation", "DESIGN.md 4/C18")
 CLAIMED["C08"] = ("TLC checks which mappings are listed, entry-first and caller-mappings-last on ModuleList for every small mapping list; targets map generated ELF images "
             "(with/without build-id note or SONAME, zero id, non-ELF, deleted, embedded at a non-zero offset, hostile names) next to the machine's own ld.so/libc/vDSO; "
